@@ -676,8 +676,9 @@ def copy_propagate(fn):
     After `self.f = x` (or `self.f[k] = x`) the local x and the field hold the same value until either is assigned again or a call
     that could change the field is made, so the rewrite is an identity on behaviour; it lets rules that follow a field (by name, at the
     time it is read) see through a local that a refactoring introduced.  Statements that are not rewritten keep their identity."""
-    if id(fn) in _CP_CACHE:
-        return _CP_CACHE[id(fn)]
+    # cached on the function node itself (an id()-keyed table would be poisoned when a later Program re-uses the address of a freed node)
+    if getattr(fn, '_sa_copyprop', None) is not None:
+        return fn._sa_copyprop
     import copy
     params = {a.arg for a in fn.args.args + fn.args.kwonlyargs}
 
@@ -795,7 +796,7 @@ def copy_propagate(fn):
                 active[st.value.id] = st.targets[0]
         return out
     res = block(fn.body, {})
-    _CP_CACHE[id(fn)] = res
+    fn._sa_copyprop = res
     return res
 
 
@@ -852,13 +853,13 @@ def _through_frames(c, frame):
         return c
     if not any(isinstance(x, ast.Name) and x.id in frame.argmap for a in list(c.args) + [k.value for k in c.keywords] for x in ast.walk(a)):
         return c
-    key = (id(c), frame.id)
-    if key not in _TF_CACHE:
+    cache = c.__dict__.setdefault('_sa_through_frames', {})       # on the node itself, never keyed by id()
+    if frame.id not in cache:
         from .norm import FrameEnv, subst
         env = FrameEnv(frame)
         new = ast.Call(func=c.func, args=[subst(a, env) for a in c.args], keywords=[ast.keyword(arg=k.arg, value=subst(k.value, env)) for k in c.keywords])
-        _TF_CACHE[key] = ast.fix_missing_locations(ast.copy_location(new, c))
-    return _TF_CACHE[key]
+        cache[frame.id] = ast.fix_missing_locations(ast.copy_location(new, c))
+    return cache[frame.id]
 
 
 def call_attr(call):
